@@ -46,6 +46,7 @@ class C08:
         self.ctx = ctx
         self.file = ctx.index.module(DET).relpath
         self.crossed = []
+        self.triples = False
 
     # ------------------------------------------------------------------ helpers
     def base_seq(self, s: Summary, t):
@@ -293,6 +294,8 @@ class C08:
         def is_match_value(t):
             if t[0] == "ite":
                 return is_match_value(t[2]) and is_match_value(t[3])
+            if t[0] == "tuple" and len(t[1]) == 3 and t[1][2][0] == "call" and t[1][2][1] == Match:
+                return True  # a (truth, scores, match) result collected as a whole
             return (t[0] == "call" and t[1] == Match) or self._is_match_result(t)
 
         apps = [e for e in s.calls if e.term[1][0] == "attr" and e.term[1][2] == "append" and len(e.term[2]) == 1
@@ -311,6 +314,12 @@ class C08:
             if unread:
                 ctx.undec("R08.7", site, f"the list of matches also receives entries in a form the rules do not read: {show(unread[0].term)[:90]}")
                 return None
+        self.triples = any(e.term[2][0][0] == "tuple" or (e.term[2][0][0] == "call" and e.term[2][0][1] == ("global", f"{DET}:evaluate_sound_event", "func"))
+                           for e in apps)
+        if self.triples and not all(e.term[2][0][0] == "tuple" or (e.term[2][0][0] == "call" and e.term[2][0][1] == ("global", f"{DET}:evaluate_sound_event", "func"))
+                                    for e in apps):
+            ctx.undec("R08.7", site, "the result list receives whole (truth, scores, match) results and bare matches")
+            return None
         loops = {e.loops[-1] for e in apps if e.loops}
         if len(loops) != 1 or not apps:
             ctx.undec("R08.7", site, f"cannot find the single loop that appends matches ({len(apps)} appends in {len(loops)} loops)")
@@ -483,6 +492,10 @@ class C08:
     def match_term(self, t, env):
         """kwargs of the Match(...) appended; follows evaluate_sound_event(...)[2]."""
         Match = ("global", "soundevent.data.matches:Match", "class")
+        if t[0] == "tuple" and len(t[1]) == 3:
+            t = t[1][2]  # the match of a (truth, scores, match) result
+        elif t[0] == "call" and t[1] == ("global", f"{DET}:evaluate_sound_event", "func"):
+            t = ("sub", t, ("const", 2))
         if t[0] == "call" and t[1] == Match:
             return callkw(t), False
         if t[0] == "sub" and t[2][0] == "const" and t[1][0] == "call" and t[1][1] == ("global", f"{DET}:evaluate_sound_event", "func"):
@@ -641,7 +654,7 @@ class C08:
         mean = ("global", f"{DET}:_mean", "func")
         # a private averaging helper written out at its call sites: the call-shape tests below do not apply, the scenario
         # reading further down (evalflow.check_mean) decides the same clauses on the written-out expression
-        has_mean = "_mean" in ctx.index.module(DET).defs
+        has_mean = "_mean" in ctx.index.module(DET).defs and not self.triples
         site = f"{self.file}:{s_clip.node.lineno} evaluate_clip"
         CE = ("global", "soundevent.data.clip_evaluations:ClipEvaluation", "class")
         ce = [x for r in s_clip.returns for x in walk(r.term) if x[0] == "call" and x[1] == CE]
@@ -674,7 +687,7 @@ class C08:
                             f"the mean over exactly the matches handed to ClipEvaluation", s_clip.node.lineno,
                             witness={"matches_appends": len(apps), "score_appends": len(sapps)})
                     good = None
-            if good is None or (not has_mean and not (sc is not None and sc[0] == "call" and sc[1] == mean)):
+            if good is None or not has_mean:
                 pass
             elif good and kw.get("matches") == lst:
                 ctx.ok("R08.6", site, "clip score = _mean(score of every appended match); matches=that list")
@@ -696,7 +709,7 @@ class C08:
             sc, clips = kw.get("score"), kw.get("clip_evaluations")
             good = (sc is not None and sc[0] == "call" and sc[1] == mean and len(sc[2]) == 1 and sc[2][0][0] == "comp"
                     and sc[2][0][3][0][1] == clips and not sc[2][0][3][0][2] and sc[2][0][2] == ("attr", ("elem", sc[2][0][3][0][0]), "score"))
-            if not has_mean and not (sc is not None and sc[0] == "call" and sc[1] == mean):
+            if not has_mean:
                 if kw.get("evaluation_task") == ("const", "sound_event_detection"):
                     ctx.ok("R08.6", site, "task label correct (the overall score is read by scenario below)")
                 else:
